@@ -661,6 +661,200 @@ pub const CLASSIC_MATES: &[&str] = &[
     "6k1/5ppp/8/8/8/8/8/R5K1 w - - 0 1",
 ];
 
+/// Greedy randomized "mate maker": given a valid position `p` and a legal move `m` that gives check,
+/// add pieces of the mover's colour (or remove non-king defenders) until `m` checkmates, keeping the
+/// position valid (`valid` is the caller's validity predicate, e.g. pre-position + double step for
+/// e.p. cases) and `m` legal.  Returns the modified position.
+pub fn mate_maker(rng: &mut Rng, p: &Position, m: Mv, valid: &dyn Fn(&Position) -> bool) -> Option<Position> {
+    let me = p.turn;
+    let opp = me.flip();
+    let mut cur = p.clone();
+    if !cur.is_legal(m) || !cur.apply(m).in_check() {
+        return None;
+    }
+    for _round in 0..40 {
+        let q = cur.apply(m);
+        let replies = q.legal_moves();
+        if replies.is_empty() {
+            return Some(cur);
+        }
+        let r = *rng.pick(&replies);
+        let (_, rk) = q.board[r.from as usize].unwrap();
+        let mut done = false;
+        if rk != Kind::K && r.from != m.to {
+            // a defender captures the checker or interposes: remove it (if it exists before m too)
+            if cur.board[r.from as usize] == Some((opp, rk)) {
+                let mut t = cur.clone();
+                t.board[r.from as usize] = None;
+                if valid(&t) && t.is_legal(m) && t.apply(m).in_check() {
+                    cur = t;
+                    done = true;
+                }
+            }
+        }
+        if !done {
+            // cover the square the reply goes to (flight square, or the checker's square)
+            for _try in 0..60 {
+                let kind = *rng.pick(&[Kind::N, Kind::R, Kind::B, Kind::Q, Kind::P, Kind::N, Kind::R]);
+                let s = rng.below(64) as u8;
+                if cur.board[s as usize].is_some() || s == m.to || s == r.to {
+                    continue;
+                }
+                if kind == Kind::P && (rank_of(s) == 0 || rank_of(s) == 7) {
+                    continue;
+                }
+                if cur.count(me) >= 16 {
+                    break;
+                }
+                let mut t = cur.clone();
+                t.board[s as usize] = Some((me, kind));
+                if !valid(&t) || !t.is_legal(m) {
+                    continue;
+                }
+                let tq = t.apply(m);
+                if !tq.in_check() || tq.legal_moves().contains(&r) {
+                    continue;
+                }
+                if tq.legal_moves().len() < replies.len() {
+                    cur = t;
+                    done = true;
+                    break;
+                }
+            }
+        }
+        if !done {
+            return None;
+        }
+    }
+    None
+}
+
+/// Mates in one delivered by an en-passant capture (direct pawn check on a king standing next to the
+/// victim pawn's origin square), optionally with the capturer pinned along its capture diagonal;
+/// also mates by castling and by each promotion piece.  All validated by the model.
+pub fn special_mate_family(rng: &mut Rng, tries: usize, out: &mut Vec<Crafted>) {
+    // e.p. mates
+    for t in 0..tries {
+        let victim_col = if t % 2 == 0 { Col::B } else { Col::W };
+        let me = victim_col.flip();
+        let f = rng.range(0, 7) as i32;
+        let start_r = victim_col.pawn_start_rank();
+        let land_r = start_r + 2 * victim_col.fwd();
+        let target_r = start_r + victim_col.fwd();
+        let side = if rng.chance(1, 2) { -1 } else { 1 };
+        let cf = f + side; // capturer file
+        let kf = f + if rng.chance(1, 2) { -1 } else { 1 }; // victim king file (attacked by the pawn on the target)
+        if !on_board(cf, land_r) || !on_board(kf, start_r) {
+            continue;
+        }
+        let mut p = Position::empty();
+        p.turn = victim_col;
+        p.board[sq(f, start_r) as usize] = Some((victim_col, Kind::P));
+        p.board[sq(cf, land_r) as usize] = Some((me, Kind::P));
+        p.board[sq(kf, start_r) as usize] = Some((victim_col, Kind::K));
+        // capturer's king: either behind the capturer on the capture diagonal (pinned variant) or random
+        let pinned = t % 3 == 0;
+        let ds = Mv::new(sq(f, start_r), sq(f, land_r));
+        if pinned {
+            // capture direction from (cf, land_r) to (f, target_r)
+            let (dx, dy) = (f - cf, target_r - land_r);
+            let (kx, ky) = (cf - dx * (1 + rng.below(2) as i32), land_r - dy * (1 + rng.below(2) as i32));
+            let (bx, by) = (f + dx * (1 + rng.below(2) as i32), target_r + dy * (1 + rng.below(2) as i32));
+            if !on_board(kx, ky) || !on_board(bx, by) || (kx - cf).abs() != (ky - land_r).abs() || (bx - f).abs() != (by - target_r).abs() {
+                continue;
+            }
+            if p.board[sq(kx, ky) as usize].is_some() || p.board[sq(bx, by) as usize].is_some() {
+                continue;
+            }
+            p.board[sq(kx, ky) as usize] = Some((me, Kind::K));
+            p.board[sq(bx, by) as usize] = Some((victim_col, if rng.chance(1, 2) { Kind::B } else { Kind::Q }));
+        } else {
+            let ks = rng.below(64) as u8;
+            if p.board[ks as usize].is_some() {
+                continue;
+            }
+            p.board[ks as usize] = Some((me, Kind::K));
+        }
+        if p.chess_root_ok().is_err() || !p.is_legal(ds) {
+            continue;
+        }
+        let post = p.apply(ds);
+        let epm = Mv::new(sq(cf, land_r), sq(f, target_r));
+        if !post.is_legal(epm) || !post.apply(epm).in_check() {
+            continue;
+        }
+        let valid = |x: &Position| -> bool {
+            // x is a post position: derive the position before the double step
+            let mut q = x.clone();
+            q.board[ds.to as usize] = None;
+            q.board[ds.from as usize] = Some((victim_col, Kind::P));
+            q.turn = victim_col;
+            q.ep = None;
+            q.chess_root_ok().is_ok() && q.is_legal(ds) && q.apply(ds) == *x
+        };
+        if let Some(mated) = mate_maker(rng, &post, epm, &valid) {
+            let mut pre = mated.clone();
+            pre.board[ds.to as usize] = None;
+            pre.board[ds.from as usize] = Some((victim_col, Kind::P));
+            pre.turn = victim_col;
+            pre.ep = None;
+            try_push(out, if pinned { "ep-mate-pinned-capturer" } else { "ep-mate" }, pre, vec![ds]);
+        }
+    }
+    // castling mates and promotion mates
+    for t in 0..tries {
+        let me = if t % 2 == 0 { Col::W } else { Col::B };
+        let opp = me.flip();
+        let hr = me.home_rank();
+        let mut p = Position::empty();
+        p.turn = me;
+        let kind_of_case = t % 3;
+        let m: Mv;
+        if kind_of_case == 0 {
+            // castling: the rook lands on f1/d1 and checks a king on that file
+            let kingside = rng.chance(1, 2);
+            p.board[sq(4, hr) as usize] = Some((me, Kind::K));
+            p.board[sq(if kingside { 7 } else { 0 }, hr) as usize] = Some((me, Kind::R));
+            p.castle[if me == Col::W { if kingside { WK } else { WQ } } else if kingside { BK } else { BQ }] = true;
+            let rf = if kingside { 5 } else { 3 };
+            let kr = (hr - rng.range(2, 7) as i32).abs();
+            if !on_board(rf, kr) {
+                continue;
+            }
+            p.board[sq(rf, kr) as usize] = Some((opp, Kind::K));
+            m = Mv::new(sq(4, hr), sq(if kingside { 6 } else { 2 }, hr));
+        } else {
+            // promotion: pawn on the 7th, enemy king somewhere, promote to a random piece
+            let f = rng.range(0, 7) as i32;
+            let r7 = if me == Col::W { 6 } else { 1 };
+            p.board[sq(f, r7) as usize] = Some((me, Kind::P));
+            let ks = rng.below(64) as u8;
+            let oks = rng.below(64) as u8;
+            if ks == oks || p.board[ks as usize].is_some() || p.board[oks as usize].is_some() {
+                continue;
+            }
+            p.board[ks as usize] = Some((me, Kind::K));
+            p.board[oks as usize] = Some((opp, Kind::K));
+            let piece = *rng.pick(&PROMOS);
+            m = Mv { from: sq(f, r7), to: sq(f, me.promo_rank()), promo: Some(piece) };
+        }
+        if p.chess_root_ok().is_err() || !p.is_legal(m) || !p.apply(m).in_check() {
+            continue;
+        }
+        let valid = |x: &Position| x.chess_root_ok().is_ok();
+        if let Some(mated) = mate_maker(rng, &p, m, &valid) {
+            let fam = match (kind_of_case, m.promo) {
+                (0, _) => "castle-mate",
+                (_, Some(Kind::N)) => "promotion-mate-knight",
+                (_, Some(Kind::B)) => "promotion-mate-bishop",
+                (_, Some(Kind::R)) => "promotion-mate-rook",
+                _ => "promotion-mate-queen",
+            };
+            out.push(Crafted { family: fam, pre: mated, moves: vec![] });
+        }
+    }
+}
+
 /// Mates in one by a capture after which only the kings and exactly two minor pieces remain (the
 /// boundary of "insufficient material").  The list was enumerated with this model by the developer
 /// tool mon-core/src/bin/gen-small-mates.rs; every entry is re-validated here (a capture that mates
